@@ -67,6 +67,10 @@ def update (envs : List (List Char × Conf)) (cfg : Conf) (i : Input) : Option (
     | .ok c' => .ok ⟨cfg ++ c', c'⟩
     | .error e => .error e
 
+/-- `cherrypy.config[k] = v` (`Config.__setitem__`): the one entry is stored and handed to the namespaces;
+    no `[global]` unwrapping, no environment expansion -/
+def setItem (cfg : Conf) (k : Name) (v : Val) : Result := ⟨cfg ++ [(k, v)], [(k, v)]⟩
+
 def liveEnvs : List (List Char × Conf) := Gen.C08.environments
 
 end CpModel.ConfigUpdate
